@@ -202,8 +202,9 @@ def at_versions(q, versions):
     return out
 
 
-def queries(desc, k, versions=('1.39',), extra_versions_for_base=()):
-    """[(label, query)] : every base x every set of <= k deviations, at the given versions."""
+def queries(desc, k, versions=('1.39',), extra_versions_for_base=(), versions_k1=()):
+    """[(label, query)] : every base x every set of <= k deviations, at the given versions
+    (base queries also at extra_versions_for_base, single deviations also at versions_k1)."""
     out = []
     seen = set()
     for bname, b in bases():
@@ -225,6 +226,8 @@ def queries(desc, k, versions=('1.39',), extra_versions_for_base=()):
                 vs = list(versions)
                 if n == 0:
                     vs += list(extra_versions_for_base)
+                if n == 1:
+                    vs += [v for v in versions_k1 if v not in vs]
                 for qq in at_versions(q, vs):
                     key = repr(sorted(qq.items(), key=repr))
                     if key in seen:
